@@ -482,6 +482,14 @@ static void compareSort(NifFile& nif, const SortSnapshot& b, const SortSnapshot&
 	}
 	if (rootFirst && b.root && !b.rootHasParent && !a.order.empty() && a.order[0] != b.root)
 		fail("sort:root-not-first", "the parentless root node is at index " + std::to_string(nif.GetBlockID(b.root)) + " after sorting");
+	if (rootFirst && !a.order.empty()) {
+		// whatever the first node was before: the block that ends up first is not a child of a surviving node
+		for (auto o : a.order) {
+			auto& ca = a.canon.at(o);
+			if (o != a.order[0] && std::find(ca.children.begin(), ca.children.end(), a.order[0]) != ca.children.end() && dynamic_cast<NiNode*>(a.order[0]))
+				fail("sort:first-block-has-a-parent", "after sorting the first block is a " + a.typeName.at(a.order[0]) + " that is a child of a surviving " + a.typeName.at(o));
+		}
+	}
 }
 
 void profile_sortprune(const json& plan, Ctx& ctx) {
